@@ -191,6 +191,65 @@ Proof.
            (kltb F (uup a c) 0), (kltb F 0 (uup a c)); field; repeat split; auto.
 Qed.
 
+(* TVD correction vector (the convectionTvdRHS functions of advection.py).  The guard _fsign and the limiter are arbitrary functions here; the
+   only thing asked of the guard is that it commutes with the change of units ON THE GRADIENTS THAT OCCUR (g_a = Kc / length
+   unit of axis a): true of the code's guard whenever the gradient is zero-free above its absolute threshold in both unit
+   systems (LimiterThy.fsign_id), false below it -- which is exactly the documented limit of the property. *)
+Section TvdScale.
+Variable fsgn FLim : K -> K.
+Variable Kc : K.
+Definition gsc (a : axis) : K := Kc / lam Lc (mcls F m) a.
+Lemma nz_lam a : lam Lc (mcls F m) a <> 0.
+Proof. unfold lam. destruct (lengthlike (mcls F m) a); [exact HL|apply (FL_field F L).(F_1_neq_0)]. Qed.
+Lemma dphi_scale (phi : cvar F) a c : mdxf F m a (cidx a c) <> 0 ->
+  dphi F m' (fun c => Kc * phi c) a c = gsc a * dphi F m phi a c.
+Proof.
+  intros Hd. unfold dphi, gsc, m'. rewrite mdxf_scale. pose proof (nz_lam a). field. split; auto.
+Qed.
+(* what a face needs: centre distances of the face and its two neighbours non-zero, guard value non-zero and commuting *)
+Definition tvd_face_ok (phi : cvar F) (a : axis) (c : cell) : Prop :=
+  mdxf F m a (cidx a c) <> 0 /\ mdxf F m a (cidx a (cdn a c)) <> 0 /\ mdxf F m a (cidx a (cup a c)) <> 0 /\
+  fsgn (dphi F m phi a c) <> 0 /\
+  fsgn (gsc a * dphi F m phi a c) = gsc a * fsgn (dphi F m phi a c).
+Lemma ratio_cancel (g x y : K) : g <> 0 -> y <> 0 -> (g * x) / (g * y) = x / y.
+Proof. intros Hg Hy. field. split; assumption. Qed.
+Hypothesis HK : Kc <> 0.
+Lemma nz_gsc a : gsc a <> 0.
+Proof. unfold gsc. apply (div_neq_0 F L); [exact HK|apply nz_lam]. Qed.
+Theorem psi_p_scale (phi : cvar F) a c : tvd_face_ok phi a c ->
+  psi_p F fsgn FLim m' (fun c => Kc * phi c) a c = Kc * psi_p F fsgn FLim m phi a c.
+Proof.
+  intros (H0 & Hm & Hp & Hf & Hh). unfold psi_p.
+  destruct (Nat.eqb (cidx a c) 0); [ring|].
+  rewrite !dphi_scale by assumption. rewrite Hh.
+  rewrite (ratio_cancel (gsc a) _ _ (nz_gsc a) Hf). ring.
+Qed.
+Theorem psi_m_scale (phi : cvar F) a c : tvd_face_ok phi a c ->
+  psi_m F fsgn FLim m' (fun c => Kc * phi c) a c = Kc * psi_m F fsgn FLim m phi a c.
+Proof.
+  intros (H0 & Hm & Hp & Hf & Hh). unfold psi_m. unfold m' at 1. rewrite mN_scale. fold m'.
+  destruct (Nat.eqb (cidx a c) (mN F m a)); [ring|].
+  rewrite !dphi_scale by assumption. rewrite Hh.
+  rewrite (ratio_cancel (gsc a) _ _ (nz_gsc a) Hf). ring.
+Qed.
+Theorem tvdflux_scale (u uup : fvar F) (phi : cvar F) a c : tvd_face_ok phi a c ->
+  tvdflux F fsgn FLim m' (scaleU u) uup (fun c => Kc * phi c) a c
+  = Lc / Tc * Kc * tvdflux F fsgn FLim m u uup phi a c.
+Proof.
+  intros Hok. unfold tvdflux. rewrite (psi_p_scale phi a c Hok), (psi_m_scale phi a c Hok).
+  unfold umax, umin, scaleU. destruct (kltb F (uup a c) 0), (kltb F 0 (uup a c)); field; exact HT.
+Qed.
+(* the row of the TVD vector along one axis: field -> K field, u -> (L/T) u gives (K/T) * row *)
+Theorem tvdrow_scale (u uup : fvar F) (phi : cvar F) a c : fac_ok m c -> mW F m a (cidx a c) <> 0 ->
+  tvd_face_ok phi a c -> tvd_face_ok phi a (cdn a c) ->
+  tvdrow F fsgn FLim m' (scaleU u) uup (fun c => Kc * phi c) a c = Kc * tvdrow F fsgn FLim m u uup phi a c / Tc.
+Proof.
+  intros Hfac HW Hc Hd. unfold tvdrow, divrow.
+  rewrite (tvdflux_scale u uup phi a c Hc), (tvdflux_scale u uup phi a (cdn a c) Hd).
+  prep a c. pose proof (nz_phi a). pose proof (nz_alpha a). field. repeat split; auto.
+Qed.
+End TvdScale.
+
 (* boundary conditions: a -> L a (b unchanged) leaves a/h unchanged, so the boundary rows are unchanged and the
    ghost value scales with the field: c -> K c, phi -> K phi gives K * ghost *)
 Definition scale_bcs (Kc : K) (bc : BCs F) : BCs F :=
